@@ -30,8 +30,22 @@ def _decode_all(payload):
     frame = pinned.frame(payload)
     # the band option is decoded first (after whatever the previous case left behind), again after
     # the RINEX options and once more at the end: all decodings under one option must agree
+    import copy  # pylint: disable=import-outside-toplevel
+    import pickle  # pylint: disable=import-outside-toplevel
+
     for lm in (2, 0, 1, 2, True, 2, 1):
-        a = dict(R.public_attrs(RTCMMessage(payload=payload, labelmsm=lm)))
+        mobj = RTCMMessage(payload=payload, labelmsm=lm)
+        a = dict(R.public_attrs(mobj))
+        # the same message after travelling through the object-copy protocol is still the message
+        # decoded under that option: every occurrence of a signal ID keeps its label
+        for how, fn in (("copy.copy", copy.copy), ("copy.deepcopy", copy.deepcopy),
+                        ("pickle", lambda m: pickle.loads(pickle.dumps(m)))):
+            try:
+                t = dict(R.public_attrs(fn(mobj)))
+            except Exception as err:  # pylint: disable=broad-except
+                t = {"<error>": f"{type(err).__name__}: {err}"}
+            if t != a and "transport-differs" not in res:
+                res["transport-differs"] = (repr(lm), how, a, t)
         if repr(lm) in res and res[repr(lm)][0] != a:
             res["repeat-differs"] = (repr(lm), a, res[repr(lm)][0])
         b = dict(R.public_attrs(RTCMReader.parse(frame, labelmsm=lm)))
@@ -77,6 +91,12 @@ def judge(case):
                 f"{case['name']}: decoding the same payload twice under labelmsm={lm}, with decodings "
                 f"under other options in between, gives different {d[:4]}: {[now.get(k) for k in d[:3]]} "
                 f"vs {[before.get(k) for k in d[:3]]}")
+    if "transport-differs" in res:
+        lm, how, a, t = res.pop("transport-differs")
+        d = sorted(k for k in set(a) | set(t) if a.get(k) != t.get(k))
+        out.bad("label-changes-in-copy" if all(k.startswith("CELLSIG_") for k in d) else "copy-differs",
+                f"{case['name']}: the message decoded under labelmsm={lm} and its {how} differ in "
+                f"{d[:4]}: {[a.get(k) for k in d[:3]]} vs {[t.get(k) for k in d[:3]]}")
     for lm, (a, b, c) in res.items():
         if a != b or a != c:
             out.bad("option-not-passed-through",
